@@ -20,7 +20,11 @@ ASSUMPTIONS = [
     "data queued before a reset stays readable (Linux keeps the receive queue); the model delivers it before the failure",
     "the segmentation the kernel chooses for recv() is an oracle: the observed chunk sizes are fed to the model (validated 1..rxBufSize)",
 ]
-TRUSTED = ["kernel TCP over loopback; std::vector erase/emplace_back order of sockets/pfds (modelled as list filter/append)"]
+TRUSTED = ["kernel TCP over loopback; std::vector erase/emplace_back order of sockets/pfds (modelled as list filter/append)",
+           "the run-time oracle itself is no longer trusted to be consistent with the model: Spec/C03.lean `specStep` (the only place "
+           "where property clauses are evaluated; Drive/C03.lean merely parses transcript lines into typed `Spec.Obs`) is proved to "
+           "accept every trace of the model (spec_holds_on_model); what stays trusted is that its clauses say what the property text "
+           "says, and the line parser of the driver"]
 ALL_TAGS = ["client", "acceptor", "pconnect", "send", "close", "rst", "arm", "arm.unregistered", "destroy", "step.idle", "step.send",
             "data", "data.full", "disconnect.eof", "disconnect.fail", "connect", "handler.destroys", "step.thread"]
 EXHAUSTIVE = {"thorough": False}
@@ -144,6 +148,16 @@ LEVEL_TEXT = ("Machine-checked Lean 4 theorems about an executable model of Step
               "connections, ids unique (connect_exactly_once); the extracted dispatch order serves readable first (dispatch_order); whenever "
               "anything is owed to a registered socket a step performs a task and the amount owed strictly decreases, independent of list "
               "position (events_progress); handler events only inside steps, at most one per step (handlers_in_step, one_handler_per_step). "
+              "spec_holds_on_model (= Spec.model_satisfies_spec, Spec/C03.lean): the executable predicate the check evaluates on the "
+              "implementation's observations - Spec.specStep over typed observations, total, no model state: one socket task per step, "
+              "handlers on the Step thread, chunk non-empty / within rxBufSize / the next bytes of the peer's stream, disconnect only "
+              "after the peer ended and everything was delivered and with the address the socket was created for, nothing after "
+              "disconnect or destruction, connect exactly once, in order, with the right peer and socket, no idle step while anything "
+              "is owed - ACCEPTS the observations the model produces (the operations and what every step appends to the model's "
+              "handler log) for every history of any length, any segmentation, buffer size and handler-side destruction, with the "
+              "dispatch order extracted from the source; hypothesis histWf: peers only send/close/reset connections that exist. So a "
+              "spec verdict on the implementation is provably a difference between implementation and model, and the oracle is never "
+              "stricter than the model. "
               "Tied to /repo on every run: real SocketTcpAsync/AcceptorAsync on one Driver against raw peers (connect/send/close/reset), "
               "rx pools (count,size) in {1,2,0}x{1,7,4096}, handler-side destruction, Step on a foreign thread; every handler call (kind, socket, "
               "length+hash, address, thread) is compared with the model and the property is evaluated on the observations.")
